@@ -35,8 +35,9 @@ PickNative == st.phase = 0 /\ \E c \in Curves : \E p \in {"native", "opaque"} : 
                 st' = [phase |-> 1, what |-> "ecdsa-native", curve |-> c, path |-> p, i |-> i]
 Renderings == {"exact", "der", "stripr", "strips", "stripboth", "padr", "pads", "padboth", "padboth2", "swap", "empty", "trunc1", "trunc2", "drop1", "ext1", "ext2", "lead1", "lead2", "halfr",
                "ext255", "ext256", "ext512", "ext65536", "lead256", "twice"}      \* lengths that differ from 2n by multiples of 2^8 / 2^16; the exact form twice
-PickAccept == st.phase = 0 /\ \E c \in Curves : \E cl \in {"normal", "shortr", "shorts"} : \E rd \in Renderings : \E sd \in Seeds :
-                st' = [phase |-> 1, what |-> "ecdsa-accept", curve |-> c, class |-> cl, rendering |-> rd, seed |-> sd]
+PickAccept == st.phase = 0 /\ \E c \in Curves : \E cl \in {"normal", "shortr", "shorts", "strail"} : \E rd \in Renderings : \E sd \in Seeds :
+                (cl = "strail" => rd \in {"exact", "trunc1", "ext1"})      \* s ends in a zero byte: cutting it off / adding one more must not be tolerated
+                /\ st' = [phase |-> 1, what |-> "ecdsa-accept", curve |-> c, class |-> cl, rendering |-> rd, seed |-> sd]
 Next == PickRender \/ PickBad \/ PickNative \/ PickAccept
 Spec == Init /\ [][Next]_st
 Emit == st.phase # 1 \/ PrintT(<<"CASE", ToJson(st)>>)
